@@ -10,3 +10,11 @@ def spec(f=None, **kw):
 
 lemma = spec
 pred = spec
+
+
+def namedtuple_types(*a, **kw):
+    return None
+
+
+def classdef(*a, **kw):
+    return None
